@@ -126,6 +126,7 @@ def handleRows (j : Json) : Option Json := do
   let dnomA := dnom.toArray
   let ownA := own.toArray
   let pvA := pvals.toArray
+  let dynA := ((getBoolList j "dyn").getD []).toArray
   let cinA : Array (Array (Option Knots)) := (cin.map List.toArray).toArray
   let histA : Array (Array (Option Knots)) := (hist.map List.toArray).toArray
   let cmodeA := cmode.toArray
@@ -139,6 +140,7 @@ def handleRows (j : Json) : Option Json := do
     didx := fun m v => (didxA.getD m #[]).getD v 0,
     npar := npar,
     pvals := fun m => pvA.getD m [],
+    dyn := fun j => dynA.getD j false,
     cin := fun m c => (((cinA.getD m #[]).getD c none)).getD [],
     cmode := fun c => cmodeA.getD c 0,
     hist := fun m v => (histA.getD m #[]).getD v none,
@@ -168,7 +170,7 @@ def handleEffPar (j : Json) : Option Json := do
   let pvA := pvals.toArray
   let pv : Nat → List Rat := fun m => pvA.getD m []
   pure (Json.mkObj [
-    ("eff", matJ ((List.range E).map (effPar E npar pv))),
+    ("eff", matJ ((List.range E).map (effPar E npar (fun _ => false) pv))),
     ("legacy", matJ ((List.range E).map (effParLegacy E npar pv)))])
 
 def handle (j : Json) : Option Json := do
